@@ -73,7 +73,11 @@ func runLs(idLookup NameLookupFileLister, dirent os.FileInfo) string {
 		uid, gid = idLookup.LookupUserName(uid), idLookup.LookupGroupName(gid)
 	}
 
+	// the date the attribute block of the same entry carries: fileStatFromInfo reduces it to 32 bits
 	mtime := dirent.ModTime()
+	if w := int64(uint32(mtime.Unix())); w != mtime.Unix() {
+		mtime = time.Unix(w, 0).In(mtime.Location())
+	}
 	date := mtime.Format("Jan 2")
 
 	var yearOrTime string
